@@ -158,6 +158,8 @@ def gen_dict(e, tag, nmax, depth=2):
             k = ("b", "a_b")[e.choice(f"{tag}k{i}", 2)]
         if depth > 1 and e.flag(f"{tag}d{i}"):
             d[k] = gen_dict(e, f"{tag}{i}_", 1, depth - 1)
+        elif e.flag(f"{tag}z{i}"):
+            d[k] = None         # an explicit null is a value like any other: it takes part in precedence
         else:
             d[k] = e.int(f"{tag}v{i}")
     return d
